@@ -69,7 +69,9 @@ def build_files(table, rng):
     FILES.clear()
     del ENCODED[:]
     for n in ["a.txt", "Welcome.txt", "b.txt", "pic.gif", "pygopherd.tar.gz", "data.bin", "noext", "fred", "zeta.txt",
-              "firmware.bin.gz", "libcodec.so.bz2", "x.bin.Z"]:
+              "firmware.bin.gz", "libcodec.so.bz2", "x.bin.Z",
+              # names that are not valid UTF-8 (a link file addresses them byte for byte) and non-ASCII ones
+              "r\udce9sum\udce9.txt", "caf\udce9", "na\u00efve.txt"]:
         FILES[n] = facts(n)
     for ext in sorted(set(exts)):
         if guess("s" + ext)[0] == "text/html":
@@ -105,6 +107,8 @@ def gen_menu_tree(rng, dirsel, feature=None):
     pre = pre + "/" if pre else ""
     names = rng.sample(sorted(FILES), rng.randrange(2, 6))
     names += [n for n in rng.sample(ENCODED, min(len(ENCODED), 2)) if n not in names]
+    if rng.random() < 0.5:
+        names += [n for n in ["r\udce9sum\udce9.txt", "caf\udce9"] if n not in names][:rng.randrange(1, 3)]
     tree = []
     sidecars = {}
     for n in names:
@@ -112,12 +116,11 @@ def gen_menu_tree(rng, dirsel, feature=None):
             tree.append({"path": pre + "sub", "kind": "dir"})
             tree.append({"path": pre + "sub/inner.txt", "data": "inner\n"})
         else:
-            tree.append({"path": pre + n, "data": "<html><head><title>T %s</title></head></html>\n" % n
-                         if n.endswith(".html") else "content of %s\n" % n})
+            tree.append({"path": tp(pre + n), "data": "content of %s\n" % tp(n)})
         if rng.random() < 0.3:
             text = rng.choice(["About %s\n" % n, "two\nlines  \n", "no newline at end", "trailing spaces   \nx\n"])
             sidecars[n] = text
-            tree.append({"path": pre + (n + "/.abstract" if n == "sub" else n + ".abstract"), "data": td(text)})
+            tree.append({"path": tp(pre + (n + "/.abstract" if n == "sub" else n + ".abstract")), "data": td(text)})
     feats = set()
     caps = {}
     for n in rng.sample(names, min(len(names), rng.randrange(0, 3))):
@@ -134,7 +137,7 @@ def gen_menu_tree(rng, dirsel, feature=None):
         if kind == "abstract":
             b["fields"].append(("Abstract", ["cap abstract", "more"]))
         caps[n] = b
-        tree.append({"path": pre + ".cap/" + n, "data": td(c08gen.render_block(b))})
+        tree.append({"path": tp(pre + ".cap/" + n), "data": td(c08gen.render_block(b))})
     visible_after_cap = [n for n in names if not (n in caps and dict(caps[n]["fields"]).get("Type") in ("X", "-"))]
     linkfiles = {}
     touched = set()
@@ -192,7 +195,7 @@ def dedicated(dirsel="/d"):
     def sc(name, lfs, caps=None, feats=()):
         tree = list(base)
         for k, blocks in lfs.items():
-            tree.append(f(k, c08gen.render_linkfile(blocks)))
+            tree.append(f(k, td(c08gen.render_linkfile(blocks))))
         for k, b in (caps or {}).items():
             tree.append(f(".cap/" + k, c08gen.render_block(b)))
         out.append({"tree": tree, "dir": "/d", "names": ["b.txt", "fred", "sub", "zeta.txt"], "sidecars": {}, "caps": caps or {},
@@ -208,6 +211,17 @@ def dedicated(dirsel="/d"):
     sc("order", {".names": [B(Path="./b.txt", Numb="2"), B(Path="./zeta.txt", Numb="1"), B(Path="./fred", Numb="-1")],
                  ".Links": [B(Name="Aardvark", Type="0", Path="/x", Host="+", Port="+"),
                             B(Name="Neg two", Type="0", Path="/y", Host="+", Port="+", Numb="-2")]})
+    out_len = len(out)
+    base.append(f(tp("r\udce9sum\udce9.txt"), "r\n"))
+    base.append(f(tp("caf\udce9"), "c\n"))
+    sc("non-utf8-names", {".names": [B(Type="X", Path="./r\udce9sum\udce9.txt"), B(Path="./caf\udce9", Name="Caf\udce9 du jour", Numb="1")]})
+    out[-1]["names"] = ["b.txt", "caf\udce9", "fred", "r\udce9sum\udce9.txt", "sub", "zeta.txt"]
+    del base[-2:]
+    sc("blank-lines-and-comment-paragraphs", {".Links": [
+        dict(B(Name="First", Type="0", Path="/one", Host="+", Port="+"), before=["# a leading comment paragraph", ""]),
+        dict(B(Path="./b.txt", Name="Bee"), before=["", ""]),
+        dict(B(Name="Last", Type="1", Path="/last", Host="+", Port="+"), before=["#", "# two comment lines", "", ""],
+             after=["", "# trailing", ""])]})
     sc("hide-directory-then-title", {".Links": [B(Type="-", Path="./sub/")],
                                      ".names": [B(Name="Internal area", Path="./sub/"), B(Name="Bee", Path="./b.txt")]})
     sc("hide-then-others-same-file", {".names": [B(Type="X", Path="./fred/"), B(Path="./fred", Name="Fred again"),
@@ -344,7 +358,7 @@ def run(tier):
     for k in range(60 if thorough else 14):
         scenarios.append(gen_menu_tree(rng, ["/d", "/"][k % 2]))
     mjobs = [{"op": "c08_menu", "tree": sc["tree"], "dir": sc["dir"], "modes": MODES, "config": CONFIG,
-              "orders": ["natural", "reversed", "rotated"]} for sc in scenarios]
+              "orders": ["natural", "reversed", "rotated"], "cache_history": True} for sc in scenarios]
     import c07 as c07mod
     hs = c07mod.history_scenarios()
     hjobs = [{"op": "c07_history", "tree": t, "dir": "/d", "kinds": ["umn"], "edits": steps, "config": CONFIG}
@@ -417,6 +431,21 @@ def run(tier):
                                        "scenario": sc.get("label", "generated"), "dir": sc["dir"], "extstrip": mode,
                                        "tree": sc["tree"], "expected_menu": want, "real_menu": got,
                                        "features": sorted(feats), "enumeration": x["enum"]}, tag=tag)
+            # with the directory cache on: HEAD / item-information first, then the menu, then the menu again
+            ch = run_.get("cache_history")
+            if ch:
+                nat = run_["runs"][0]["menu"]
+                for step in ch[2:]:
+                    chk.count((json.dumps(sc["tree"], sort_keys=True), mode, "cache", step["request"]))
+                    if step["out"] != nat and ("cache", sc.get("label", id(sc)), mode) not in reported:
+                        reported.add(("cache", sc.get("label", id(sc)), mode))
+                        found = True
+                        chk.violation({"what": "with the directory cache enabled the menu of a directory differs from the menu without "
+                                               "a cache, after a request that prepared the listing but never fetched it (HTTP HEAD, "
+                                               "Gopher+ item information)", "scenario": sc.get("label", "generated"),
+                                       "dir": sc["dir"], "extstrip": mode, "tree": sc["tree"],
+                                       "requests_latin1": [x["request"] for x in ch],
+                                       "menu_without_cache": nat, "menu_with_cache": step["out"]}, tag="c08-cache-changes-menu")
             # the menu must not depend on the order in which the OS enumerates the directory
             if not ties and len(set(menus.values())) > 1:
                 found = True
